@@ -174,23 +174,8 @@ def rule_vetting(repo, rep):
                   'around the solver catches only %s: other solver failures '
                   '(e.g. FloatingPointError) escape instead of RuntimeError'
                   % caught)
-  atoms_ = set()
-  t = guard.test
-  parts = t.values if isinstance(t, ast.BoolOp) and \
-      isinstance(t.op, ast.Or) else [t]
-  for p in parts:
-    atoms_.add(astutil.norm_atom(p))
-  err = [a for a in atoms_ if a.endswith('is not None')]
-  flags = sorted(a for a in atoms_ if a not in err)
-  ok = len(err) == 1 and len(flags) >= 2
-  rep.add(R, 'sdml._BaseSDML._fit:guard', 'derived' if ok else 'refuted',
-          site(f, guard), '' if ok else 'guard tests only %s'
-          % sorted(atoms_))
-  # what the flags mean
-  defs = {}
-  for n in ast.walk(f.node):
-    if isinstance(n, ast.Assign) and isinstance(n.targets[0], ast.Name):
-      defs.setdefault(n.targets[0].id, []).append(n.value)
+  # the guard as a disjunction of predicates, per path: through the try body
+  # (no exception) and through the handler
   # the solver result: the argument of the conversion that is stored
   Mname = None
   if isinstance(st.value, ast.Call) and st.value.args:
@@ -286,52 +271,121 @@ def rule_vetting(repo, rep):
         return True
     return False
 
-  res = {'not_spd': [], 'not_finite': []}
-  for fl in flags:
-    for v in defs.get(fl, []):
-      if isinstance(v, ast.Constant):
-        continue
-      qv = quant(v)
-      if qv is None:
-        res['not_spd'].append(('unknown', fl, ast.unparse(v)))
-        res['not_finite'].append(('unknown', fl, ast.unparse(v)))
-        continue
-      q, el, ng = qv
-      kind = elem(el, ng)
-      if kind[0] == 'neg':
-        if not spectrum_of_M(kind[1]):
-          res['not_spd'].append(('unknown', fl, ast.unparse(v)))
+  tries = [t_ for c in calls for (t_, ch) in astutil.enclosing(f.node, c,
+                                                                ast.Try)]
+  if not tries:
+    rep.unknown(R, 'sdml._BaseSDML._fit:guard', site(f, guard), 'the solver '
+                'call is not inside a try statement')
+    return
+  tr = tries[0]
+
+  def pred_of(e):
+    """atomic predicate -> 'neg' | 'nonfinite' | 'bad:<text>' | None"""
+    qv = quant(e)
+    if qv is None:
+      return None
+    q, el, ng = qv
+    kind = elem(el, ng)
+    txt = ast.unparse(e)
+    if kind[0] == 'neg':
+      if not spectrum_of_M(kind[1]):
+        return None
+      return 'neg' if q == 'any' else 'bad:' + txt
+    if kind[0] == 'nonfinite' and kind[1] == Mname:
+      return 'nonfinite' if q == 'any' else 'bad:' + txt
+    if kind[0] == 'finite' and kind[1] == Mname:
+      return 'bad:' + txt
+    return None
+
+  def bval(e, env):
+    """-> ('const', bool) | ('or', frozenset of predicates) | None"""
+    if isinstance(e, ast.Constant) and isinstance(e.value, bool):
+      return ('const', e.value)
+    if isinstance(e, ast.Name):
+      return env.get(e.id)
+    if isinstance(e, ast.BoolOp) and isinstance(e.op, ast.Or):
+      acc = set()
+      for x in e.values:
+        v = bval(x, env)
+        if v is None:
+          return None
+        if v == ('const', True):
+          return v
+        if v[0] == 'or':
+          acc |= v[1]
+      return ('or', frozenset(acc)) if acc else ('const', False)
+    if isinstance(e, ast.Compare) and len(e.ops) == 1 and \
+            isinstance(e.ops[0], (ast.Is, ast.IsNot)) and \
+            isinstance(e.left, ast.Name) and \
+            isinstance(e.comparators[0], ast.Constant) and \
+            e.comparators[0].value is None:
+      v = env.get(e.left.id)
+      if v == ('none',):
+        return ('const', isinstance(e.ops[0], ast.Is))
+      if v == ('exc',):
+        return ('const', isinstance(e.ops[0], ast.IsNot))
+      return None
+    if isinstance(e, ast.UnaryOp) and isinstance(e.op, ast.Not):
+      v = bval(e.operand, env)
+      if v is not None and v[0] == 'const':
+        return ('const', not v[1])
+    p_ = pred_of(e)
+    if p_ is not None:
+      return ('or', frozenset([p_]))
+    return None
+
+  def run(stmts, env):
+    for s_ in stmts:
+      if isinstance(s_, ast.Assign) and len(s_.targets) == 1 and \
+              isinstance(s_.targets[0], ast.Name):
+        v = s_.value
+        if isinstance(v, ast.Constant) and v.value is None:
+          env[s_.targets[0].id] = ('none',)
+        elif isinstance(v, ast.Name) and env.get(v.id) == ('exc',):
+          env[s_.targets[0].id] = ('exc',)
         else:
-          res['not_spd'].append(('ok' if q == 'any' else 'bad', fl,
-                                 ast.unparse(v)))
-      elif kind[0] == 'nonfinite' and kind[1] == Mname:
-        res['not_finite'].append(('ok' if q == 'any' else 'bad', fl,
-                                  ast.unparse(v)))
-      elif kind[0] == 'finite' and kind[1] == Mname:
-        # any(finite) / all(finite) without negation is not a failure flag
-        res['not_finite'].append(('bad', fl, ast.unparse(v)))
-      else:
-        res['not_spd'].append(('unknown', fl, ast.unparse(v)))
-        res['not_finite'].append(('unknown', fl, ast.unparse(v)))
-  for what, txt_ in (('not_spd', 'a negative eigenvalue of the solver '
-                      'result'),
-                     ('not_finite', 'a non-finite entry of the solver '
-                      'result')):
-    rs = res[what]
-    key = 'sdml._BaseSDML._fit:' + what
-    if any(r[0] == 'ok' for r in rs) and not any(r[0] == 'bad' for r in rs):
-      rep.derived(R, key, site(f, guard))
-    elif any(r[0] == 'bad' for r in rs):
-      b = [r for r in rs if r[0] == 'bad'][0]
-      rep.refuted(R, key, site(f, guard), 'flag %s = %s does not mean '
-                  '"there is %s"' % (b[1], b[2], txt_))
-    elif any(r[0] == 'unknown' for r in rs):
-      u = [r for r in rs if r[0] == 'unknown'][0]
-      rep.unknown(R, key, site(f, guard), 'flag %s = %s is not a recognised '
-                  'predicate form' % (u[1], u[2]))
+          env[s_.targets[0].id] = bval(v, env)
+    return env
+  pre = [s_ for s_ in body if s_.lineno < tr.lineno]
+  between = [s_ for s_ in body if tr.end_lineno < s_.lineno < guard.lineno]
+  paths = {}
+  env = run(pre, {})
+  paths['no exception'] = run(between, run(tr.body + tr.orelse, dict(env)))
+  for h in tr.handlers:
+    e2 = dict(env)
+    if h.name:
+      e2[h.name] = ('exc',)
+    paths['solver raised'] = run(between, run(h.body, e2))
+  gv = {k: bval(guard.test, v) for k, v in paths.items()}
+  key = 'sdml._BaseSDML._fit:'
+  # a solver failure always reaches the RuntimeError
+  ge = gv.get('solver raised')
+  if ge == ('const', True):
+    rep.derived(R, key + 'guard', site(f, guard))
+  elif ge is None:
+    rep.unknown(R, key + 'guard', site(f, guard), 'value of the guard %s on '
+                'the handler path not derivable' % ast.unparse(guard.test))
+  else:
+    rep.refuted(R, key + 'guard', site(f, guard), 'after a solver exception '
+                'the guard %s is %s: the failure does not become the '
+                'documented RuntimeError' % (ast.unparse(guard.test), ge))
+  gn = gv.get('no exception')
+  for what, txt_ in (('neg', 'a negative eigenvalue of the solver result'),
+                     ('nonfinite', 'a non-finite entry of the solver result')):
+    k_ = key + ('not_spd' if what == 'neg' else 'not_finite')
+    if gn is None:
+      rep.unknown(R, k_, site(f, guard), 'the guard %s is not a disjunction '
+                  'of recognised predicates' % ast.unparse(guard.test))
+    elif gn[0] == 'or' and any(p_.startswith('bad:') for p_ in gn[1]):
+      b_ = [p_ for p_ in gn[1] if p_.startswith('bad:')][0]
+      rep.refuted(R, k_, site(f, guard), 'the test %s does not mean "there '
+                  'is %s"' % (b_[4:], txt_))
+    elif gn == ('const', True) or (gn[0] == 'or' and what in gn[1]):
+      rep.derived(R, k_, site(f, guard))
     else:
-      rep.refuted(R, key, site(f, guard), 'no flag of the guard is derived '
-                  'from %s' % txt_)
+      rep.refuted(R, k_, site(f, guard), 'components_ is stored although '
+                  'there may be %s: the guard is %s' % (
+                      txt_, sorted(gn[1]) if gn[0] == 'or' else gn))
 
 
 def rule_forms(repo, rep):
@@ -381,14 +435,26 @@ def rule_forms(repo, rep):
     return
   lm = [v for (n, v) in guards.assignments(f.node, 'loss_matrix')
         if v is not None]
-  okl = lm and ast.unparse(lm[0]) in (
-      '(diff.T * y).dot(diff)', 'np.dot(diff.T * y, diff)',
-      'diff.T.dot(y[:, None] * diff)', '(diff * y[:, None]).T.dot(diff)',
-      'np.einsum(\'ij,i,ik->jk\', diff, y, diff)')
-  rep.add(R, 'sdml._BaseSDML._fit:loss_matrix', 'derived' if okl else
-          'unknown', site(f), '' if okl else 'loss_matrix = %s is not in the '
-          'table of forms of diff^T Diag(y) diff'
-          % (ast.unparse(lm[0]) if lm else None))
+  # diff^T Diag(y) diff in the algebra of matrix words (any spelling)
+  from ..ncalg import NC, NCEval, _diag
+  from ..ratfunc import Rat as _Rat
+
+  def canon_of(e):
+    d_ = repo.dotted(f.module, e)
+    return canon(d_) if d_ else None
+  Dm = NC.atom('diff')
+  yv = NC({(('m', 'y', False, False),): _Rat.const(1)}, 'row')
+  nce = NCEval({'diff': Dm, 'y': yv}, {}, canon_of)
+  lv = nce.ev(lm[0]) if lm else None
+  want_l = Dm.T().mul(_diag(yv.T())).mul(Dm)
+  if isinstance(lv, NC):
+    rep.add(R, 'sdml._BaseSDML._fit:loss_matrix', 'derived' if lv == want_l
+            else 'refuted', site(f), '' if lv == want_l else 'loss_matrix is '
+            '%r, documented diff^T Diag(y) diff = %r' % (lv, want_l))
+  else:
+    rep.unknown(R, 'sdml._BaseSDML._fit:loss_matrix', site(f),
+                'loss_matrix = %s is outside the evaluated matrix forms'
+                % (ast.unparse(lm[0]) if lm else None))
   df = [v for (n, v) in guards.assignments(f.node, 'diff') if v is not None]
   okd = df and ast.unparse(df[0]) in ('pairs[:, 0] - pairs[:, 1]',
                                       'pairs[:, 1] - pairs[:, 0]',
